@@ -89,15 +89,19 @@ DotFinal == {[op |-> "Dot", h |-> "d1",
 (* FinalOp = "Load" (C11): spellings of the document that the library's writers never produce. *)
 (* One flag at a time over a neutral base, plus everything at once.                            *)
 FBase == [arr1 |-> FALSE, recarr |-> FALSE, int |-> "bare", bool |-> "bare", str |-> "bare", float |-> "typed",
-          qn |-> "PROV", bprefix |-> FALSE, keys |-> "asis", indent |-> FALSE, subtype |-> FALSE, comment |-> FALSE]
+          qn |-> "PROV", bprefix |-> FALSE, keys |-> "asis", indent |-> FALSE, subtype |-> FALSE, comment |-> FALSE,
+          member |-> FALSE, bodykeys |-> "asis", localns |-> ""]
 FlagSets ==
   { FBase, [FBase EXCEPT !.arr1 = TRUE], [FBase EXCEPT !.recarr = TRUE], [FBase EXCEPT !.int = "typed"],
     [FBase EXCEPT !.int = "typedstr"], [FBase EXCEPT !.int = "long"], [FBase EXCEPT !.bool = "typed"],
     [FBase EXCEPT !.bool = "typedstr"], [FBase EXCEPT !.str = "typed"], [FBase EXCEPT !.float = "typedstr"],
     [FBase EXCEPT !.qn = "QName"], [FBase EXCEPT !.bprefix = TRUE], [FBase EXCEPT !.keys = "reversed"],
     [FBase EXCEPT !.indent = TRUE], [FBase EXCEPT !.subtype = TRUE], [FBase EXCEPT !.comment = TRUE],
+    [FBase EXCEPT !.member = TRUE], [FBase EXCEPT !.member = TRUE, !.bodykeys = "reversed"],
+    [FBase EXCEPT !.bodykeys = "reversed"], [FBase EXCEPT !.localns = "new"], [FBase EXCEPT !.localns = "rebind"],
     [arr1 |-> TRUE, recarr |-> TRUE, int |-> "typedstr", bool |-> "typedstr", str |-> "typed", float |-> "typedstr",
-     qn |-> "PROV", bprefix |-> TRUE, keys |-> "reversed", indent |-> TRUE, subtype |-> TRUE, comment |-> TRUE] }
+     qn |-> "PROV", bprefix |-> TRUE, keys |-> "reversed", indent |-> TRUE, subtype |-> TRUE, comment |-> TRUE,
+     member |-> TRUE, bodykeys |-> "reversed", localns |-> "new"] }
 LoadFinal == {[op |-> "Load", h |-> "d1", fmt |-> f, fl |-> x] : f \in Fmts, x \in FlagSets}
 Final == IF FinalOp = "Load" THEN LoadFinal ELSE IF FinalOp = "Dot" THEN DotFinal ELSE IF FinalOp = "Export"
          THEN {[op |-> "Export", h |-> "d1", seq |-> q] : q \in ExportSeqs}
@@ -131,21 +135,44 @@ RdfActsK(h, k) ==
      formals |-> FormalsOf(k, x[2]), extras |-> ExtrasOf(x[3])]
       : x \in {y \in IdOptions(k) \X RdfMasks(k) \X RdfExtras : RdfOK(k, y[1], y[2], y[3])} }
 RdfActs(h) == UNION { RdfActsK(h, k) : k \in KindSet }
+(* second records: relations sharing the subject ex:x of the first one (plain and attributed, *)
+(* same and other kinds), elements, and a bundle holding elements and relations of every    *)
+(* "simple" kind                                                                             *)
+RdfRel(h, k, S, e) == [op |-> "NewRec", h |-> h, k |-> k, via |-> "new_record", id |-> <<>>,
+                       formals |-> [j \in 1..Len(S) |->
+                                      <<Formals[k][S[j]], IF Formals[k][S[j]] \in TimeAttrs THEN [t |-> "dt", v |-> "t2"]
+                                                          ELSE IF S[j] = 1 THEN Ref(NamePL("ex", X))
+                                                          ELSE Ref(NamePL("ex", <<"z">>))>>],
+                       extras |-> e]
+RdfRelMenu(h) ==
+  { RdfRel(h, "association", <<1, 2>>, <<>>), RdfRel(h, "association", <<1, 2, 3>>, <<>>),
+    RdfRel(h, "association", <<1, 2>>, << <<NamePL("prov", <<"role">>), [t |-> "str", v |-> "s2"]>> >>),
+    RdfRel(h, "generation", <<1, 2>>, <<>>), RdfRel(h, "generation", <<1, 2, 3>>, <<>>),
+    RdfRel(h, "usage", <<1, 2, 3>>, <<>>), RdfRel(h, "derivation", <<1, 2, 3>>, <<>>),
+    RdfRel(h, "delegation", <<1, 2>>, <<>>), RdfRel(h, "attribution", <<1, 2>>, <<>>),
+    RdfRel(h, "communication", <<1, 2>>, <<>>), RdfRel(h, "start", <<1, 2, 3>>, <<>>),
+    RdfRel(h, "membership", <<1, 2>>, <<>>), RdfRel(h, "specialization", <<1, 2>>, <<>>) }
 RdfSecond ==
   { [op |-> "NewRec", h |-> "d1", k |-> "entity", via |-> "new_record", id |-> <<NamePL("ex", <<"r2">>)>>,
      formals |-> <<>>, extras |-> << <<NameQN("ex", A, <<"attr">>), [t |-> "int", v |-> "7"]>> >>],
     [op |-> "NewRec", h |-> "d1", k |-> "entity", via |-> "new_record", id |-> <<NamePL("ex", <<"r2">>)>>,
      formals |-> <<>>, extras |-> << <<NameQN("ex", A, <<"attr">>), [t |-> "str", v |-> "s1"]>> >>],
     [op |-> "Bundle", h |-> "d1", id |-> NamePL("ex", <<"b1">>), out |-> "b1"] }
+  \cup RdfRelMenu("d1")
   \cup (IF "b1" \in DOMAIN ms.con
         THEN { [op |-> "NewRec", h |-> "b1", k |-> "agent", via |-> "new_record",
-                id |-> <<NamePL("ex", <<"ag">>)>>, formals |-> <<>>, extras |-> <<>>],
-               [op |-> "NewRec", h |-> "b1", k |-> "usage", via |-> "new_record", id |-> <<>>,
-                formals |-> << <<"activity", Ref(NamePL("ex", Y))>>, <<"entity", Ref(NamePL("ex", X))>>,
-                               <<"time", [t |-> "dt", v |-> "t1"]>> >>, extras |-> <<>>] }
+                id |-> <<NamePL("ex", <<"ag">>)>>, formals |-> <<>>, extras |-> <<>>] } \cup RdfRelMenu("b1")
         ELSE {})
 (* every bundle of an expressible document is non-empty *)
-RdfComplete == \A h \in DOMAIN ms.con : ms.con[h].kind = "bun" => ms.con[h].recs # <<>>
+(* and no subject carries an identified and an anonymous relation of one kind *)
+FirstRef(r) == LET vs == ValuesOf(r, <<"prov#", Formals[r.k][1]>>) IN IF vs = {} THEN NONE ELSE Uri((CHOOSE v \in vs : TRUE).q)
+RdfComplete ==
+  \A h \in DOMAIN ms.con :
+     /\ ms.con[h].kind = "bun" => ms.con[h].recs # <<>>
+     /\ \A i, j \in 1..Len(ms.con[h].recs) :
+          LET r1 == ms.con[h].recs[i]
+              r2 == ms.con[h].recs[j]
+          IN (r1.k \notin Elements /\ r1.k = r2.k /\ r1.id.ok /\ ~r2.id.ok) => FirstRef(r1) # FirstRef(r2)
 
 (* second records next to the first: same identifier again (same / other kind), and a bundle *)
 SecondActs ==
@@ -154,6 +181,9 @@ SecondActs ==
       : k \in {"entity", "agent"},
         e \in { <<>>, << <<NameQN("ex", A, <<"attr">>), [t |-> "int", v |-> "7"]>> >> } }
   \cup { [op |-> "Bundle", h |-> "d1", id |-> NamePL("ex", <<"b1">>), out |-> "b1"] }
+  \cup { [op |-> "NewRec", h |-> "d1", k |-> "membership", via |-> "new_record", id |-> <<>>,
+           formals |-> << <<"collection", Ref(NamePL("ex", X))>>, <<"entity", Ref(NamePL("ex", e))>> >>,
+           extras |-> <<>>] : e \in {<<"z">>, <<"w">>} }
   \cup (IF "b1" \in DOMAIN ms.con
         THEN { [op |-> "NewRec", h |-> "b1", k |-> "entity", via |-> "new_record",
                 id |-> <<NamePL("ex", <<"r">>)>>, formals |-> <<>>, extras |-> <<>>] }
@@ -189,6 +219,7 @@ GraphActs ==
     GR("entity", <<NamePL("ex", Y)>>, <<>>, << <<NamePL("prov", <<"label">>), [t |-> "str", v |-> "s2"]>> >>),
     GR("agent", <<NamePL("ex", Z)>>, <<>>, << <<NamePL("prov", <<"label">>), [t |-> "str", v |-> "nq"]>>,
                                              <<NameQN("ex", A, <<"attr">>), [t |-> "str", v |-> "nq"]>> >>),
+    GR("entity", <<NamePL("ex", Z)>>, <<>>, << <<NamePL("prov", <<"label">>), [t |-> "lang", v |-> "nq", lang |-> "fr"]>> >>),
     GR("generation", <<>>, << <<"entity", Rf(X)>>, <<"activity", Rf(Y)>> >>, <<>>),
     GR("generation", <<NamePL("ex", <<"g">>)>>, << <<"entity", Rf(X)>>, <<"activity", Rf(Y)>>, <<"time", [t |-> "dt", v |-> "t1"]>> >>,
        << <<NamePL("prov", <<"role">>), [t |-> "str", v |-> "s1"]>> >>),
